@@ -2,6 +2,8 @@
 (* C20, unbounded: an inductive invariant of the Scrollable position state machine, discharged by    *)
 (* Apalache (SMT) for ALL integers - stored positions, content heights and view heights - where TLC  *)
 (* (Scrollable.tla) enumerates small ranges only.  Same operators as the TLC model (ScrollableOps).  *)
+(* The invariant includes "a rendering uses up the pending key" and "nothing is pending across a     *)
+(* resize / content change", hence (clampok) such a change can only clamp the position shown.        *)
 (*   apalache-mc check --init=Init    --inv=IndInv --length=0 ScrollableInd.tla   (base case)        *)
 (*   apalache-mc check --init=IndInit --inv=IndInv --length=1 ScrollableInd.tla   (inductive step)   *)
 (*   apalache-mc check --init=IndInit --inv=Safe   --length=0 ScrollableInd.tla   (IndInv => Safe)   *)
@@ -17,22 +19,32 @@ VARIABLES
   \* @type: Int;
   h,
   \* @type: Bool;
-  rendered
+  rendered,
+  \* @type: Int;
+  pr,
+  \* @type: Bool;
+  quiet,
+  \* @type: Bool;
+  clampok
 
-Init == stored = 0 /\ pend = "" /\ total \in Nat /\ h \in Nat \ {0} /\ rendered = FALSE
+Init == /\ stored = 0 /\ pend = "" /\ total \in Nat /\ h \in Nat \ {0} /\ rendered = FALSE
+        /\ pr = -1 /\ quiet = TRUE /\ clampok = TRUE
 
-Key(k) == pend' = k /\ rendered' = FALSE /\ UNCHANGED <<stored, total, h>>
-SetPos(v) == stored' = v /\ rendered' = FALSE /\ UNCHANGED <<pend, total, h>>
-Resize(h2) == h2 >= 1 /\ h' = h2 /\ rendered' = FALSE /\ UNCHANGED <<stored, pend, total>>
-Content(t2) == t2 >= 0 /\ total' = t2 /\ rendered' = FALSE /\ UNCHANGED <<stored, pend, h>>
+Key(k) == pend' = k /\ rendered' = FALSE /\ quiet' = FALSE /\ UNCHANGED <<stored, total, h, pr, clampok>>
+SetPos(v) == stored' = v /\ rendered' = FALSE /\ quiet' = FALSE /\ UNCHANGED <<pend, total, h, pr, clampok>>
+Wheel(d) == /\ rendered /\ stored' = WheelPos(stored, d) /\ rendered' = FALSE /\ quiet' = FALSE
+            /\ UNCHANGED <<pend, total, h, pr, clampok>>
+Resize(h2) == h2 >= 1 /\ h' = h2 /\ rendered' = FALSE /\ UNCHANGED <<stored, pend, total, pr, quiet, clampok>>
+Content(t2) == t2 >= 0 /\ total' = t2 /\ rendered' = FALSE /\ UNCHANGED <<stored, pend, h, pr, quiet, clampok>>
 Render ==
-  /\ LET p0 == Resolve(stored, total, h)
-         p == IF pend = "" THEN p0 ELSE Nav(p0, pend, total, h)
-     IN stored' = p
-  /\ pend' = "" /\ rendered' = TRUE /\ UNCHANGED <<total, h>>
+  /\ LET p == Shown(stored, pend, total, h)
+     IN /\ stored' = p /\ pr' = p
+        /\ clampok' = ((quiet /\ pr >= 0) => p = Clamp(pr, total, h))
+  /\ pend' = "" /\ rendered' = TRUE /\ quiet' = TRUE /\ UNCHANGED <<total, h>>
 
 Next == \/ \E k \in ScrollKeys : Key(k)
         \/ \E v \in Int : SetPos(v)
+        \/ \E d \in {"up", "down"} : Wheel(d)
         \/ \E h2 \in Int : Resize(h2)
         \/ \E t2 \in Int : Content(t2)
         \/ Render
@@ -41,11 +53,16 @@ Next == \/ \E k \in ScrollKeys : Key(k)
 IndInv == /\ total >= 0 /\ h >= 1
           /\ pend \in ScrollKeys \cup {""}
           /\ (rendered => (stored >= 0 /\ stored <= MaxPos(total, h) /\ pend = ""))
-IndInit == stored \in Int /\ pend \in ScrollKeys \cup {""} /\ total \in Int /\ h \in Int /\ rendered \in BOOLEAN /\ IndInv
+          /\ pr >= -1
+          /\ (quiet => (pend = "" /\ (pr >= 0 => stored = pr)))      \* nothing is pending across a resize / content change
+          /\ clampok                                                  \* ... so such a change can only clamp the position
+IndInit == /\ stored \in Int /\ pend \in ScrollKeys \cup {""} /\ total \in Int /\ h \in Int /\ rendered \in BOOLEAN
+           /\ pr \in Int /\ quiet \in BOOLEAN /\ clampok \in BOOLEAN /\ IndInv
 
 \* must be REFUTED (non-vacuity of the inductive step): a rendering can leave the view at the end of the content
 NeverAtEnd == rendered => (stored # MaxPos(total, h) \/ MaxPos(total, h) = 0)
 
 \* what C20 states about the position after a rendering, for every integer input
-Safe == rendered => (0 <= stored /\ stored <= Max2(0, total - h))
+Safe == /\ rendered => (0 <= stored /\ stored <= Max2(0, total - h))
+        /\ clampok
 ================================================================================
